@@ -83,7 +83,7 @@ func (fsys *FS) Open(path string) (afero.File, error) {
 }
 
 func (fsys *FS) OpenFile(path string, flags int, perm fs.FileMode) (afero.File, error) {
-	modificationsEnabled := flags&(os.O_WRONLY|os.O_APPEND|os.O_TRUNC|os.O_CREATE) != 0
+	modificationsEnabled := flags&(os.O_WRONLY|os.O_RDWR|os.O_APPEND|os.O_TRUNC|os.O_CREATE) != 0
 
 	path, typ := translatePath(path)
 	if typ == virtualPS3ISOFile || typ == virtualISOFile {
